@@ -68,6 +68,14 @@ func genC16(r *Rng, tier string, idx int) *Plan {
 		k.Refresh = "static"
 		k.IDTokenTTL, k.ExpiresIn = 300, 300
 		k.LatencyUS = []int{0, 30, 200}[r.Intn(3)]
+		if r.Chance(0.3) {
+			// session timeouts shorter than the token lifetime: the sessions of the "refresh" tasks have timed out
+			// when the concurrent part starts, so concurrent checks make the store expire sessions while others read
+			f.IdleTimeout = []int{100, 200}[r.Intn(2)]
+			if r.Bool() {
+				f.AbsTimeout = 250
+			}
+		}
 	}
 	if nf == 1 && r.Chance(0.25) {
 		p.Spec.HandlerMode = true
